@@ -32,13 +32,13 @@
 static m_queue_t *g_evq;
 #include "abs.contracts.h"
 #include "cb.contracts.h"
-#if defined(V_TELLSUBS_UNIT) || defined(V_FETCHSUB_UNIT)
+#if defined(V_TELLSUBS_UNIT) || defined(V_FETCHSUB_UNIT) || defined(V_SUBSCRIBE_UNIT)
 #include "subs.contracts.h"
 #else
 #include "ps.contracts.h"
 #endif
 
-#define H_INPUTS(X) V_MOD_INPUTS(X) X(uint64_t, evq_len) X(uint8_t, has_topic) X(uint8_t, has_key) X(uint8_t, alloc_fails) X(uint8_t, pipe_full) X(uint8_t, autofree) X(uint64_t, pipe_len) X(uint8_t, stopping) X(uint8_t, has_sub)
+#define H_INPUTS(X) V_MOD_INPUTS(X) X(uint64_t, evq_len) X(uint8_t, has_topic) X(uint8_t, has_key) X(uint8_t, alloc_fails) X(uint8_t, pipe_full) X(uint8_t, autofree) X(uint64_t, pipe_len) X(uint8_t, stopping) X(uint8_t, has_sub) X(uint32_t, sflags_old) X(uint32_t, sflags_new)
 V_DEFINE_INPUTS(H_INPUTS)
 #include "vbuild.h"
 
@@ -94,7 +94,7 @@ void h_flush(void) {
 }
 #endif
 
-#if defined(V_TELLSUBS_UNIT) || defined(V_FETCHSUB_UNIT)
+#if defined(V_TELLSUBS_UNIT) || defined(V_FETCHSUB_UNIT) || defined(V_SUBSCRIBE_UNIT)
 static char g_topicbuf[2] = "t";
 static void build_subs(void) {
     build();
@@ -121,6 +121,22 @@ void h_fetch_sub(void) {
     ev_src_t *r = fetch_sub(g_mod, g_topic);
     V_COVER("sub-exact", r != NULL && (vin_has_sub & 1)); V_COVER("sub-pattern-third-of-five", r != NULL && !(vin_has_sub & 1) && vin_pipe_len == 5 && vin_evq_len == 2);
     V_COVER("sub-none-of-four", r == NULL && vin_pipe_len == 4); V_COVER("sub-empty-table", r == NULL && vin_pipe_len == 0); V_COVER("sub-pattern-last", r != NULL && !(vin_has_sub & 1) && vin_pipe_len == 3 && vin_evq_len == 2);
+    V_CANARY();
+}
+#endif
+
+#ifdef V_SUBSCRIBE_UNIT
+void h_subscribe(void) {
+    build_subs();
+    static char oldtopic[2] = "t";
+    g_mctx = g_ctx; g_regcomp_ret = vin_has_key ? 2 : 0;
+    g_entry = vin_has_sub & 1;
+    g_oldsub = malloc(sizeof *g_oldsub); __CPROVER_assume(g_oldsub != NULL); g_oldsub->flags = (m_src_flags)vin_sflags_old; g_oldsub->ps_src.topic = (vin_sflags_old & M_SRC_DUP) ? oldtopic : g_topicbuf; g_oldsub->userptr = NULL;
+    g_mod->subscriptions = (vin_has_topic || g_entry) ? (m_map_t *)g_tab : NULL;
+    g.map_key = g_entry ? (const void *)g_oldsub->ps_src.topic : NULL; g.freed_topic = NULL;
+    int r = m_mod_ps_subscribe(g_mod, vin_alloc_fails ? NULL : g_topic, (m_src_flags)vin_sflags_new, &g_topicbuf[1]);
+    V_COVER("sub-first", r == 0 && !g_mod->subscriptions == 0 && !(vin_has_sub & 1) && g.mapnew_calls == 1); V_COVER("sub-same-flags-in-place", r == 0 && (vin_has_sub & 1) && g.mapput_calls == 0);
+    V_COVER("sub-other-flags-replaces-dup", r == 0 && (vin_has_sub & 1) && g.mapput_calls == 1 && (vin_sflags_old & M_SRC_DUP)); V_COVER("sub-bad-pattern", r == 2); V_COVER("sub-denied", r == -EPERM);
     V_CANARY();
 }
 #endif
